@@ -595,6 +595,12 @@ def check_candidates(ctx: Ctx, rules: Dict[str, str]):
                 r, c = norm(v.slice.elts[0]), norm(v.slice.elts[1])
                 ok_term = {x, y} == {a, b} and r == f"{tup}[{x}]" and c == f"{tup}[{y}]"
                 k.facts = {"pre": pre_name, "first": x, "second": y, "outer": a, "inner": b, "dom": dom}
+        cost_writes = [x for x in ast.walk(ML) if isinstance(x, (ast.Assign, ast.AugAssign)) and
+                       any(norm(t_) == cname for t_ in (x.targets if isinstance(x, ast.Assign) else [x.target]))]
+        k.check("cost-closed", len(cost_writes) == 2 and zero[0] in cost_writes and (accs and accs[0] in cost_writes), cost_writes[-1] if cost_writes else Pb,
+                "the candidate cost is written only by its reset to 0 and by the pair accumulation",
+                f"the candidate cost `{cname}` is also modified by {[norm(x) for x in cost_writes if x is not zero[0] and not (accs and x is accs[0])]}: "
+                f"what is compared with the threshold / stored is no longer the pair-sum")
         k.check("cost-term", ok_term, accs[0] if accs else Pb,
                 "each pair adds precomputation[x][y][t[x], t[y]]: row index from the annotator of the rows, column from the annotator of the columns",
                 "pair term does not index the pair matrix with (tuple[row annotator], tuple[column annotator])")
